@@ -694,7 +694,7 @@ fn law_case(cx: &mut Cx, t: &Tera, rng: &mut Rng) {
         let _ = neg;
     }
     // canonical numeric strings convert exactly, clearly non-numeric strings fail
-    let (sv, exp_int, exp_float): (String, Option<String>, Option<String>) = match rng.below(6) {
+    let (sv, exp_int, exp_float): (String, Option<String>, Option<String>) = match rng.below(7) {
         0 => {
             let i = rng.range(-100000, 100000);
             (i.to_string(), Some(i.to_string()), Some(format!("{:?}", i as f64)))
@@ -707,7 +707,16 @@ fn law_case(cx: &mut Cx, t: &Tera, rng: &mut Rng) {
             let fl = rng.range(-4000, 4000) as f64 / 8.0;
             (format!("{fl:?}"), None, Some(format!("{fl:?}")))
         }
-        3 => ((*rng.pick(&["abc", "", "x1", "--1", "1 2", "é", "0x", "١٢"])).to_string(), Some("ERR".into()), Some("ERR".into())),
+        3 => ((*rng.pick(&["abc", "", "x1", "--1", "1 2", "é", "0x", "١٢", "1.5.2", "1.x"])).to_string(), Some("ERR".into()), Some("ERR".into())),
+        6 => {
+            // integral float spellings convert to the integer, fractional ones fail
+            let i = rng.range(-500, 500);
+            if rng.bool() {
+                (format!("{i}.0"), Some(i.to_string()), Some(format!("{:?}", i as f64)))
+            } else {
+                (format!("{i}.5"), Some("ERR".into()), Some(format!("{:?}", if i < 0 { i as f64 - 0.5 } else { i as f64 + 0.5 })))
+            }
+        }
         4 => ("170141183460469231731687303715884105727".into(), Some("170141183460469231731687303715884105727".into()), Some(format!("{:?}", i128::MAX as f64))),
         _ => ("-170141183460469231731687303715884105728".into(), Some("-170141183460469231731687303715884105728".into()), Some(format!("{:?}", i128::MIN as f64))),
     };
